@@ -11,7 +11,7 @@ import (
 
 func init() {
 	register(&Rule{ID: "R-stack-effect", Floor: 40, Run: ruleVMStackEffect,
-		Doc: "for every opcode case of the VM's instruction dispatcher, all paths that complete normally (reach the common exit / return nil) have the same net operand-stack effect (+1 per call of the method that appends to Core.Stack, -1 per call of the method that shrinks it; a loop whose every iteration has the same non-zero effect d contributes d*tripcount symbolically; a push guarded by a nil/null test of the pushed value contributes the indicator [value!=null]; paths that transfer control to a callee frame are compared among themselves). Paths returning a non-nil interrupt or panicking are exempt. Necessary for C01/C16: the compiler emits code against ONE effect per opcode; an opcode with two effects leaves a residue (or underflows) on one of its paths"})
+		Doc: "for every opcode case of the VM's instruction dispatcher (a tree of functions: the *Core method switching over compiler.Opcode, the functions its clauses hand the same instruction to, and per-opcode handler methods, all spliced into one walk; push/pop primitives are recognised by the shape of their write to Core.Stack), all paths that complete normally (reach the common exit / return nil) have the same net operand-stack effect (+1 per call of the method that appends to Core.Stack, -1 per call of the method that shrinks it; a loop whose every iteration has the same non-zero effect d contributes d*tripcount symbolically; a push guarded by a nil/null test of the pushed value contributes the indicator [value!=null]; paths that transfer control to a callee frame are compared among themselves). Paths returning a non-nil interrupt or panicking are exempt. Necessary for C01/C16: the compiler emits code against ONE effect per opcode; an opcode with two effects leaves a residue (or underflows) on one of its paths"})
 }
 
 // vmLin is a linear expression over symbols: c + Σ coef·sym.
@@ -78,25 +78,150 @@ type vmSymLoop struct {
 type vmIndicator struct{ text string }
 
 // vmVMRoles: anchors of the VM resolved by role.
+//
+// The instruction dispatcher is a TREE of functions: the root is the *Core
+// method with a statement-level switch over compiler.Opcode that no other such
+// function calls; a clause (or the default clause) of a dispatcher may hand the
+// same instruction to another function with its own opcode switch, and a
+// clause may hand the instruction to a per-opcode handler method. dispSw is the
+// flattened view: one switch (positioned at the root switch) whose clauses are
+// the LEAF clauses of the tree, so `vmClauseOf(info, r.dispSw, op)` finds the
+// code of an opcode wherever it is written. Walking r.dispatch with vmWalk
+// splices the sub-dispatchers and handler methods in (vmDefaultInline), and
+// vmUnitOf names the paths by the opcode they handle.
 type vmVMRoles struct {
 	c         *Ctx
 	fns       []*vmFn
-	dispatch  *vmFn // the *Core method switching over compiler.Opcode
-	dispSw    *ast.SwitchStmt
+	dispatch  *vmFn           // root of the dispatch tree
+	dispSw    *ast.SwitchStmt // flattened switch (leaf clauses of the whole tree)
+	rootSw    *ast.SwitchStmt // the root's own switch statement
 	opEnum    *Enum
 	stack     *vmStackRoles // Core.Stack
 	callStack *vmStackRoles // Core.CallStack
 	run       *vmFn
+
+	nodes    map[*types.Func]*vmDispNode // every function of the dispatch tree
+	clauseFn map[*ast.CaseClause]*vmFn   // leaf clause → the function it is written in
+	handlers map[*types.Func]*vmFn       // functions spliced into the dispatcher walk (sub-dispatchers and handler methods)
+}
+
+type vmDispNode struct {
+	fn     *vmFn
+	obj    *types.Func
+	sw     *ast.SwitchStmt
+	subj   types.Object // the parameter holding the instruction (or its opcode)
+	isOp   bool         // subj is the opcode itself
+	subjIx int          // index of subj among the parameters
+	edges  map[*ast.CaseClause]*vmDispNode
+	called bool
 }
 
 var vmRolesCache = map[*Ctx]*vmVMRoles{}
+
+// registries read by vmWalk / vmUnitOf (one analysed tree per process)
+var (
+	vmDispatchInline = map[*ast.FuncDecl]func(callee *vmFn, call *ast.CallExpr) bool{}
+	vmContSwitchPos  = map[token.Pos]bool{} // opcode switches of the non-root dispatch functions
+	vmDispRootPos    token.Pos
+	vmDispEnum       []*types.Const
+)
+
+func vmDefaultInline(fn *vmFn) func(callee *vmFn, call *ast.CallExpr) bool {
+	return vmDispatchInline[fn.fd]
+}
+
+// vmParamIndex: the parameter objects of a function in order.
+func vmParamObjs(fn *vmFn) []types.Object {
+	var out []types.Object
+	for _, f := range fn.fd.Type.Params.List {
+		if len(f.Names) == 0 {
+			out = append(out, nil)
+		}
+		for _, n := range f.Names {
+			out = append(out, fn.info.Defs[n])
+		}
+	}
+	return out
+}
+
+// vmSingleDef: the expression a local is defined with, when it is assigned exactly once.
+func vmSingleDef(fn *vmFn, obj types.Object) ast.Expr {
+	var def ast.Expr
+	n := 0
+	ast.Inspect(fn.fd.Body, func(m ast.Node) bool {
+		switch x := m.(type) {
+		case *ast.AssignStmt:
+			for i, l := range x.Lhs {
+				if vmObjOf(fn.info, l) == obj {
+					n++
+					if len(x.Lhs) == len(x.Rhs) {
+						def = x.Rhs[i]
+					} else {
+						def = nil
+						n++
+					}
+				}
+			}
+		case *ast.IncDecStmt:
+			if vmObjOf(fn.info, x.X) == obj {
+				n += 2
+			}
+		case *ast.UnaryExpr:
+			if x.Op == token.AND && vmObjOf(fn.info, x.X) == obj {
+				n += 2
+			}
+		}
+		return true
+	})
+	if n == 1 {
+		return def
+	}
+	return nil
+}
+
+// vmOpcodeSubject: which parameter does an opcode-typed switch tag examine?
+func vmOpcodeSubject(fn *vmFn, tag ast.Expr, depth int) (subj types.Object, isOp bool) {
+	tag = ast.Unparen(tag)
+	params := vmParamObjs(fn)
+	isParam := func(o types.Object) bool {
+		for _, p := range params {
+			if p != nil && p == o {
+				return true
+			}
+		}
+		return false
+	}
+	switch x := tag.(type) {
+	case *ast.Ident:
+		o := vmObjOf(fn.info, x)
+		if isParam(o) {
+			return o, true
+		}
+		if depth < 3 {
+			if def := vmSingleDef(fn, o); def != nil {
+				return vmOpcodeSubject(fn, def, depth+1)
+			}
+		}
+	case *ast.CallExpr:
+		if sel, ok := ast.Unparen(x.Fun).(*ast.SelectorExpr); ok && len(x.Args) == 0 {
+			recv := ast.Unparen(sel.X)
+			if ta, isTA := recv.(*ast.TypeAssertExpr); isTA {
+				recv = ast.Unparen(ta.X)
+			}
+			if o := vmObjOf(fn.info, recv); isParam(o) {
+				return o, false
+			}
+		}
+	}
+	return nil, false
+}
 
 func vmRoles(c *Ctx) *vmVMRoles {
 	if r := vmRolesCache[c]; r != nil {
 		return r
 	}
 	rt := c.Pkg("homescript/runtime")
-	r := &vmVMRoles{c: c, fns: vmFuncs(c, "homescript/runtime")}
+	r := &vmVMRoles{c: c, fns: vmFuncs(c, "homescript/runtime"), nodes: map[*types.Func]*vmDispNode{}, clauseFn: map[*ast.CaseClause]*vmFn{}, handlers: map[*types.Func]*vmFn{}}
 	opT := c.Pkg("homescript/compiler").Types.Scope().Lookup("Opcode")
 	if opT == nil {
 		fatalf("anchor unresolved: compiler.Opcode")
@@ -105,21 +230,204 @@ func vmRoles(c *Ctx) *vmVMRoles {
 	if r.opEnum == nil {
 		fatalf("anchor unresolved: compiler.Opcode is not an enum")
 	}
+	var order []*vmDispNode
 	for _, fn := range r.fns {
 		if fn.fd.Recv == nil || recvTypeName(fn.fd.Recv.List[0].Type) != "Core" {
 			continue
 		}
+		obj, _ := fn.info.Defs[fn.fd.Name].(*types.Func)
+		if obj == nil {
+			continue
+		}
 		for _, sw := range vmTopSwitches(c, fn.info, fn.fd.Body) {
-			if types.Identical(fn.info.TypeOf(sw.Tag), opT.Type()) {
-				if r.dispatch != nil {
-					fatalf("anchor ambiguous: two *Core methods dispatch on compiler.Opcode")
+			if !types.Identical(fn.info.TypeOf(sw.Tag), opT.Type()) {
+				continue
+			}
+			if r.nodes[obj] != nil {
+				fatalf("anchor ambiguous: %s has two statement-level switches over compiler.Opcode", fn.name)
+			}
+			n := &vmDispNode{fn: fn, obj: obj, sw: sw, edges: map[*ast.CaseClause]*vmDispNode{}}
+			n.subj, n.isOp = vmOpcodeSubject(fn, sw.Tag, 0)
+			for i, p := range vmParamObjs(fn) {
+				if p != nil && p == n.subj {
+					n.subjIx = i
 				}
-				r.dispatch, r.dispSw = fn, sw
+			}
+			r.nodes[obj] = n
+			order = append(order, n)
+		}
+	}
+	if len(order) == 0 {
+		fatalf("anchor unresolved: no *Core method with a statement-level switch over compiler.Opcode")
+	}
+	// edges: a clause hands the instruction under dispatch to another dispatch function
+	sameSubject := func(d *vmDispNode, e *vmDispNode, call *ast.CallExpr) bool {
+		if d.subj == nil || e.subj == nil || e.subjIx >= len(call.Args) {
+			return false
+		}
+		arg := ast.Unparen(call.Args[e.subjIx])
+		switch {
+		case d.isOp == e.isOp:
+			return vmObjOf(d.fn.info, arg) == d.subj
+		case e.isOp && !d.isOp:
+			// f(instruction.Opcode(), …)
+			if cx, ok := arg.(*ast.CallExpr); ok {
+				if sel, ok := ast.Unparen(cx.Fun).(*ast.SelectorExpr); ok && len(cx.Args) == 0 {
+					return vmObjOf(d.fn.info, sel.X) == d.subj
+				}
+			}
+			if o := vmObjOf(d.fn.info, arg); o != nil {
+				if def := vmSingleDef(d.fn, o); def != nil {
+					if s2, isOp := vmOpcodeSubject(d.fn, def, 0); s2 == d.subj && !isOp {
+						return true
+					}
+				}
+			}
+		}
+		return false
+	}
+	for _, d := range order {
+		for _, cl := range d.sw.Body.List {
+			cc := cl.(*ast.CaseClause)
+			for _, s := range cc.Body {
+				ast.Inspect(s, func(m ast.Node) bool {
+					if _, isLit := m.(*ast.FuncLit); isLit {
+						return false
+					}
+					if call, ok := m.(*ast.CallExpr); ok {
+						if e := r.nodes[vmOrigin(CalleeOf(d.fn.info, call))]; e != nil && e != d && sameSubject(d, e, call) {
+							if prev := d.edges[cc]; prev != nil && prev != e {
+								fatalf("anchor ambiguous: a clause of %s hands the instruction to two dispatch functions", d.fn.name)
+							}
+							d.edges[cc] = e
+							e.called = true
+						}
+					}
+					return true
+				})
 			}
 		}
 	}
-	if r.dispatch == nil {
-		fatalf("anchor unresolved: no *Core method with a statement-level switch over compiler.Opcode")
+	var root *vmDispNode
+	for _, n := range order {
+		if !n.called {
+			if root != nil {
+				fatalf("anchor ambiguous: two *Core methods dispatch on compiler.Opcode and neither hands its instruction to the other (%s, %s)", root.fn.name, n.fn.name)
+			}
+			root = n
+		}
+	}
+	if root == nil {
+		fatalf("anchor unresolved: the *Core methods that switch over compiler.Opcode call each other in a cycle")
+	}
+	r.dispatch, r.rootSw = root.fn, root.sw
+	// flattened switch
+	listed := func(n *vmDispNode) map[*types.Const]bool {
+		m := map[*types.Const]bool{}
+		for _, cl := range n.sw.Body.List {
+			for _, e := range cl.(*ast.CaseClause).List {
+				if k := ConstOf(n.fn.info, e); k != nil {
+					m[k] = true
+				}
+			}
+		}
+		return m
+	}
+	var flatten func(n *vmDispNode, allowed map[*types.Const]bool, withDefault bool, depth int) []ast.Stmt
+	flatten = func(n *vmDispNode, allowed map[*types.Const]bool, withDefault bool, depth int) []ast.Stmt {
+		if depth > 6 {
+			fatalf("anchor unresolved: dispatch tree deeper than 6 functions")
+		}
+		var out []ast.Stmt
+		mine := listed(n)
+		for _, cl := range n.sw.Body.List {
+			cc := cl.(*ast.CaseClause)
+			sub := map[*types.Const]bool{}
+			if cc.List == nil {
+				if !withDefault && n.edges[cc] == nil {
+					continue
+				}
+				for _, k := range r.opEnum.Consts {
+					if !mine[k] && (allowed == nil || allowed[k]) {
+						sub[k] = true
+					}
+				}
+			} else {
+				for _, e := range cc.List {
+					if k := ConstOf(n.fn.info, e); k != nil && (allowed == nil || allowed[k]) {
+						sub[k] = true
+					}
+				}
+				if len(sub) == 0 {
+					continue
+				}
+			}
+			if e := n.edges[cc]; e != nil {
+				out = append(out, flatten(e, sub, cc.List == nil && withDefault, depth+1)...)
+				continue
+			}
+			r.clauseFn[cc] = n.fn
+			out = append(out, cc)
+		}
+		return out
+	}
+	r.dispSw = &ast.SwitchStmt{Switch: root.sw.Switch, Init: root.sw.Init, Tag: root.sw.Tag,
+		Body: &ast.BlockStmt{Lbrace: root.sw.Body.Lbrace, Rbrace: root.sw.Body.Rbrace, List: flatten(root, nil, true, 0)}}
+	vmDispRootPos = root.sw.Pos()
+	vmDispEnum = r.opEnum.Consts
+	for _, n := range order {
+		if n != root {
+			vmContSwitchPos[n.sw.Pos()] = true
+			r.handlers[n.obj] = n.fn
+		}
+	}
+	// handler methods: functions of the package that receive the instruction under dispatch
+	instrT := c.Pkg("homescript/compiler").Types.Scope().Lookup("Instruction")
+	var instrIface *types.Interface
+	if instrT != nil {
+		instrIface, _ = instrT.Type().Underlying().(*types.Interface)
+	}
+	isInstr := func(t types.Type) bool {
+		if t == nil || instrIface == nil {
+			return false
+		}
+		if types.Identical(t, instrT.Type()) {
+			return true
+		}
+		n := vmNamed(t)
+		return n != nil && n.Obj().Pkg() == instrT.Pkg() && types.Implements(t, instrIface)
+	}
+	want := func(callee *vmFn, call *ast.CallExpr) bool {
+		if callee.pkg != root.fn.pkg {
+			return false
+		}
+		obj, _ := callee.info.Defs[callee.fd.Name].(*types.Func)
+		if n := r.nodes[obj]; n != nil {
+			return n != root
+		}
+		for _, a := range call.Args {
+			if isInstr(callee.info.TypeOf(a)) {
+				return true
+			}
+		}
+		return false
+	}
+	vmDispatchInline[root.fn.fd] = want
+	for _, n := range order {
+		for _, cl := range n.sw.Body.List {
+			for _, s := range cl.(*ast.CaseClause).Body {
+				ast.Inspect(s, func(m ast.Node) bool {
+					if call, ok := m.(*ast.CallExpr); ok {
+						if g := vmDeclIndex(c).of(CalleeOf(n.fn.info, call)); g != nil && want(g, call) {
+							if obj, ok := g.info.Defs[g.fd.Name].(*types.Func); ok {
+								r.handlers[obj] = g
+							}
+						}
+					}
+					return true
+				})
+			}
+		}
 	}
 	sf := vmStructField(rt, "Core", "Stack")
 	cf := vmStructField(rt, "Core", "CallStack")
@@ -137,6 +445,43 @@ func vmRoles(c *Ctx) *vmVMRoles {
 	r.run = vmMustFn(c, "homescript/runtime", "Core", "Run")
 	vmRolesCache[c] = r
 	return r
+}
+
+func vmOrigin(f *types.Func) *types.Func {
+	if f == nil {
+		return nil
+	}
+	return f.Origin()
+}
+
+// handlerNodes: everything that executes for opcode k: its leaf clause and the
+// bodies of the handler methods the clause hands the instruction to.
+func (r *vmVMRoles) handlerNodes(k *types.Const) (cl *ast.CaseClause, nodes []ast.Node) {
+	cl = vmClauseOf(r.dispatch.info, r.dispSw, k)
+	if cl == nil {
+		return nil, nil
+	}
+	seen := map[*vmFn]bool{}
+	var visit func(n ast.Node, depth int)
+	visit = func(n ast.Node, depth int) {
+		nodes = append(nodes, n)
+		if depth > 3 {
+			return
+		}
+		ast.Inspect(n, func(m ast.Node) bool {
+			if call, ok := m.(*ast.CallExpr); ok {
+				if g := r.handlers[vmOrigin(CalleeOf(r.dispatch.info, call))]; g != nil && r.nodes[vmOrigin(CalleeOf(r.dispatch.info, call))] == nil && !seen[g] {
+					seen[g] = true
+					visit(g.fd.Body, depth+1)
+				}
+			}
+			return true
+		})
+	}
+	for _, s := range cl.Body {
+		visit(s, 0)
+	}
+	return cl, nodes
 }
 
 // ---- effect of one trace
@@ -360,7 +705,7 @@ func (sp *vmStackPrep) indicatorOf(s *ast.IfStmt) (vmIndicator, bool) {
 	return vmIndicator{text: exprStr(s.Cond)}, true
 }
 
-func (sp *vmStackPrep) prepare(n ast.Node) {
+func (sp *vmStackPrep) prepare(fn *vmFn, n ast.Node) {
 	// inner constructs first
 	ast.Inspect(n, func(m ast.Node) bool {
 		if m == n {
@@ -370,12 +715,12 @@ func (sp *vmStackPrep) prepare(n ast.Node) {
 		case *ast.FuncLit:
 			return false
 		case *ast.ForStmt:
-			sp.prepare(x.Body)
-			sp.loop(x, x.Body)
+			sp.prepare(fn, x.Body)
+			sp.loop(fn, x, x.Body)
 			return false
 		case *ast.RangeStmt:
-			sp.prepare(x.Body)
-			sp.loop(x, x.Body)
+			sp.prepare(fn, x.Body)
+			sp.loop(fn, x, x.Body)
 			return false
 		case *ast.IfStmt:
 			if ind, ok := sp.indicatorOf(x); ok {
@@ -387,8 +732,8 @@ func (sp *vmStackPrep) prepare(n ast.Node) {
 	})
 }
 
-func (sp *vmStackPrep) loop(loop ast.Stmt, body *ast.BlockStmt) {
-	res := vmWalk(vmWalkOpts{fn: sp.se.fn, body: body, replace: sp.replace})
+func (sp *vmStackPrep) loop(fn *vmFn, loop ast.Stmt, body *ast.BlockStmt) {
+	res := vmWalk(vmWalkOpts{fn: fn, body: body, replace: sp.replace, inline: vmDefaultInline(sp.se.fn)})
 	if res.overflow {
 		sp.problem[loop] = "path cap exceeded in loop body"
 		return
@@ -453,7 +798,16 @@ func ruleVMStackEffect(c *Ctx) []Obligation {
 	info := fn.info
 	se := &vmStackEval{r: r, fn: fn, memo: map[*types.Func]*vmLin{}, busy: map[*types.Func]bool{}}
 	sp := &vmStackPrep{se: se, repl: map[ast.Stmt]any{}, problem: map[ast.Stmt]string{}}
-	sp.prepare(fn.fd.Body)
+	sp.prepare(fn, fn.fd.Body)
+	// loops in the functions the dispatcher hands its instruction to (sub-dispatchers, handler methods)
+	var hobjs []*types.Func
+	for o := range r.handlers {
+		hobjs = append(hobjs, o)
+	}
+	sort.Slice(hobjs, func(i, j int) bool { return hobjs[i].Pos() < hobjs[j].Pos() })
+	for _, o := range hobjs {
+		sp.prepare(r.handlers[o], r.handlers[o].fd.Body)
+	}
 	res := vmWalk(vmWalkOpts{fn: fn, replace: sp.replace})
 	tops := map[token.Pos]bool{r.dispSw.Pos(): true}
 	prefix := fn.name + "|"
@@ -493,9 +847,18 @@ func ruleVMStackEffect(c *Ctx) []Obligation {
 		}
 		u := get("case " + strings.Join(names, ","))
 		u.pos = cc.Pos()
+		var scope []ast.Node
+		if len(names) > 0 {
+			if k := ConstOf(info, cc.List[0]); k != nil {
+				_, scope = r.handlerNodes(k)
+			}
+		}
 		for loop, why := range sp.problem {
-			if loop.Pos() >= cc.Pos() && loop.End() <= cc.End() {
-				u.problems = append(u.problems, fmt.Sprintf("loop at %s: %s", c.Pos(loop.Pos()), why))
+			for _, n := range scope {
+				if loop.Pos() >= n.Pos() && loop.End() <= n.End() {
+					u.problems = append(u.problems, fmt.Sprintf("loop at %s: %s", c.Pos(loop.Pos()), why))
+					break
+				}
 			}
 		}
 	}
